@@ -289,9 +289,21 @@ def writer_lines(F, f):
         for i, a in enumerate(args[1:1 + nconv]):
             fld = hdr_field(a)
             if fld is None:
-                if i == 0 and "TEXT" in render(a):
-                    out.append(("format", False))
-                continue
+                # a local that holds the printed value: every value it is given (initialiser and assignments) and their guards
+                a0 = strip(a)
+                srcs, guards = [], []
+                if a0["k"] == "DeclRefExpr" and a0.get("dk") == "Var":
+                    for n_ in f.walk():
+                        if n_["k"] == "VarDecl" and n_.get("declId") == a0.get("declId") and kids(n_):
+                            srcs.append(kids(n_)[0])
+                        if n_["k"] == "BinaryOperator" and n_.get("op") == "=" and strip(kids(n_)[0]).get("declId") == a0.get("declId"):
+                            srcs.append(kids(n_)[1])
+                            guards += [t for t, _p in norm_facts(f, n_)]
+                    fld = next((x for x in (hdr_field(y) for y in srcs) if x), None)
+                if fld is None:
+                    if i == 0 and ("TEXT" in render(a) or any("TEXT" in g for g in guards)):
+                        out.append(("format", False))
+                    continue
             out.append((fld, cond or i >= minconv))
         return out, all("\n" in s for s in fmts)
 
